@@ -278,6 +278,47 @@ func (vc *VC) constGlobal(g *ssa.Global) *Term {
 	switch u := elemT.Underlying().(type) {
 	case *types.Array:
 		et = u.Elem()
+	case *types.Struct:
+		// struct literal of constants (positional or keyed); missing fields are zero
+		vals := make([]string, u.NumFields())
+		for i := range vals {
+			vals[i] = vc.zero(u.Field(i).Type()).S
+		}
+		for i, e := range cl.Elts {
+			fi := i
+			if kv, ok := e.(*ast.KeyValueExpr); ok {
+				id, ok := kv.Key.(*ast.Ident)
+				if !ok {
+					return nil
+				}
+				fi = -1
+				for k := 0; k < u.NumFields(); k++ {
+					if u.Field(k).Name() == id.Name {
+						fi = k
+					}
+				}
+				e = kv.Value
+			}
+			if fi < 0 || fi >= u.NumFields() {
+				return nil
+			}
+			v := p.TypesInfo.Types[e].Value
+			if v == nil {
+				return nil
+			}
+			vals[fi] = vc.constTerm(v, u.Field(fi).Type()).S
+		}
+		sn := vc.sortOf(elemT)
+		name := vc.fresh("cst_" + g.Name())
+		vc.declare(name, sn)
+		if len(vals) == 0 {
+			vc.assume("(= " + name + " mk-" + sn + ")")
+		} else {
+			vc.assume("(= " + name + " (mk-" + sn + " " + strings.Join(vals, " ") + "))")
+		}
+		vc.lits[key] = name
+		vc.note("package variable " + g.String() + " treated as constant (no store outside its initialiser)")
+		return &Term{name, sn, elemT}
 	default:
 		return nil
 	}
@@ -307,8 +348,14 @@ func (vc *VC) constGlobal(g *ssa.Global) *Term {
 		vc.assume("(= (select " + name + " " + vc.intLit(idx, 64) + ") " + c.S + ")")
 		idx++
 	}
+	// elements not listed are zero
+	if a, ok := elemT.Underlying().(*types.Array); ok {
+		for ; idx < a.Len() && idx < 4096; idx++ {
+			vc.assume("(= (select " + name + " " + vc.intLit(idx, 64) + ") " + vc.intLit(0, bits) + ")")
+		}
+	}
 	vc.lits[key] = name
-	vc.notes = append(vc.notes, "package variable "+g.String()+" treated as constant (no store outside its initialiser)")
+	vc.note("package variable " + g.String() + " treated as constant (no store outside its initialiser)")
 	return &Term{name, sort, elemT}
 }
 
